@@ -6,9 +6,10 @@ C09 (b): every field `Tracer::to_field` emits lies in the round-trip domain `Sch
 
 `to_field_schemaOK`: for every tracer whose primitive nodes hold a type of the tracer's leaf alphabet and no strategy
 (`C07.WF`, the reachable-state invariant of `from_samples`), options whose overwrites are themselves in the domain
-(`OwOK`; an overwrite replaces the traced field as given) and `allow_null_fields = false`, the field is `schemaOK`.
-The last hypothesis is needed: a position no sample reached (`Tracer::Unknown`, nullable flag unset) is emitted under
-`allow_null_fields` as a NON-nullable `Null` field, which the JSON form reads back as nullable (`unknown_not_in_domain`).
+(`OwOK`; an overwrite replaces the traced field as given), the field is `schemaOK` — for EVERY option, `allow_null_fields`
+included: a `Null` field is always emitted nullable, also for a position no sample reached (`Tracer::Unknown`; repo fix
+01bb847 — before it `UnknownTracer::to_field` kept the unset nullable flag and the JSON form read the field back nullable:
+`Props.C09.C09_unseen_position_outside_pinned`).
 The constructor lemmas `ok_*` are shared with the `from_type` side (Lemmas/C09TracedTy.lean).
 -/
 namespace SaModel.Lemmas.C09T
@@ -168,13 +169,15 @@ theorem ok_union {n : String} {nl : Bool} {l : List (Int × Field)} (h : OkU 0 l
 /-! ### the traversal -/
 
 mutual
-theorem to_field_schemaOK (o : Options) (how : OwOK o) (hn : o.allow_null_fields = false) :
+theorem to_field_schemaOK (o : Options) (how : OwOK o) :
     ∀ (t : Tracer) (f : Field), C07.WF o t → t.to_field o = .ok f → schemaOK f = true
   | .unknown n p nl, f, _, h => by
     rw [Tracer.to_field] at h
     rcases wo_inv h with ⟨kv, hkv, rfl⟩ | h
     · exact how kv hkv
-    · simp [hn, fail] at h
+    · split at h
+      · simp [fail] at h
+      · cases h; exact ok_null n
   | .primitive n p nl ty st, f, hw, h => by
     rw [C07.WF] at hw
     obtain ⟨rfl, hs⟩ := hw
@@ -183,7 +186,11 @@ theorem to_field_schemaOK (o : Options) (how : OwOK o) (hn : o.allow_null_fields
     rcases wo_inv h with ⟨kv, hkv, rfl⟩ | h
     · exact how kv hkv
     · cases hnull : isNull ty with
-      | true => simp [hn, hnull, fail] at h
+      | true =>
+        simp only [hnull, Bool.and_true, if_true] at h
+        split at h
+        · simp [fail] at h
+        · cases h; exact ok_null n
       | false =>
         simp only [hnull, Bool.and_false, Bool.false_eq_true, if_false] at h
         split at h
@@ -198,7 +205,7 @@ theorem to_field_schemaOK (o : Options) (how : OwOK o) (hn : o.allow_null_fields
     · exact how kv hkv
     · obtain ⟨item, hi, h⟩ := bind_ok'.mp h
       cases h
-      exact ok_list _ (to_field_schemaOK o how hn i item hw hi)
+      exact ok_list _ (to_field_schemaOK o how i item hw hi)
   | .map n p nl k v, f, hw, h => by
     rw [C07.WF] at hw
     rw [Tracer.to_field] at h
@@ -207,14 +214,14 @@ theorem to_field_schemaOK (o : Options) (how : OwOK o) (hn : o.allow_null_fields
     · obtain ⟨kf, hk, h⟩ := bind_ok'.mp h
       obtain ⟨vf, hv, h⟩ := bind_ok'.mp h
       cases h
-      exact ok_map (to_field_schemaOK o how hn k kf hw.1 hk) (to_field_schemaOK o how hn v vf hw.2 hv)
+      exact ok_map (to_field_schemaOK o how k kf hw.1 hk) (to_field_schemaOK o how v vf hw.2 hv)
   | .struct n p nl fs m s, f, hw, h => by
     rw [C07.WF] at hw
     rw [Tracer.to_field] at h
     rcases wo_inv h with ⟨kv, hkv, rfl⟩ | h
     · exact how kv hkv
     · obtain ⟨fields, hfs, h⟩ := bind_ok'.mp h
-      have ih := to_fieldsF_schemaOK o how hn s fs fields hw hfs
+      have ih := to_fieldsF_schemaOK o how s fs fields hw hfs
       cases m with
       | map => cases h; exact ok_struct structMeta_map (fun g hg => ih g ((mem_sortByName fields g).1 hg))
       | struct => cases h; exact ok_struct structMeta_nil ih
@@ -225,7 +232,7 @@ theorem to_field_schemaOK (o : Options) (how : OwOK o) (hn : o.allow_null_fields
     · exact how kv hkv
     · obtain ⟨fields, hfs, h⟩ := bind_ok'.mp h
       cases h
-      exact ok_struct structMeta_tuple (to_fieldsT_schemaOK o how hn ts fields hw hfs)
+      exact ok_struct structMeta_tuple (to_fieldsT_schemaOK o how ts fields hw hfs)
   | .union n p nl vs, f, hw, h => by
     rw [C07.WF] at hw
     rw [Tracer.to_field] at h
@@ -237,8 +244,8 @@ theorem to_field_schemaOK (o : Options) (how : OwOK o) (hn : o.allow_null_fields
         · simp [fail] at h
         · obtain ⟨fields, hfs, h⟩ := bind_ok'.mp h
           cases h
-          exact ok_union (to_fieldsV_schemaOK o how hn vs 0 fields hw hfs)
-theorem to_fieldsT_schemaOK (o : Options) (how : OwOK o) (hn : o.allow_null_fields = false) :
+          exact ok_union (to_fieldsV_schemaOK o how vs 0 fields hw hfs)
+theorem to_fieldsT_schemaOK (o : Options) (how : OwOK o) :
     ∀ (ts : Tracers) (l : List Field), C07.TsWF o ts → ts.to_fields o = .ok l → ∀ f ∈ l, schemaOK f = true
   | .nil, l, _, h => by
     simp only [Tracers.to_fields] at h; cases h; simp
@@ -250,9 +257,9 @@ theorem to_fieldsT_schemaOK (o : Options) (how : OwOK o) (hn : o.allow_null_fiel
     cases h
     intro g hg
     rcases List.mem_cons.1 hg with rfl | hg
-    · exact to_field_schemaOK o how hn t _ hw.1 hf
-    · exact to_fieldsT_schemaOK o how hn r fs hw.2 hfs g hg
-theorem to_fieldsF_schemaOK (o : Options) (how : OwOK o) (hn : o.allow_null_fields = false) (s : Nat) :
+    · exact to_field_schemaOK o how t _ hw.1 hf
+    · exact to_fieldsT_schemaOK o how r fs hw.2 hfs g hg
+theorem to_fieldsF_schemaOK (o : Options) (how : OwOK o) (s : Nat) :
     ∀ (fs : TFields) (l : List Field), C07.FWF o s fs → fs.to_fields o = .ok l → ∀ f ∈ l, schemaOK f = true
   | .nil, l, _, h => by
     simp only [TFields.to_fields] at h; cases h; simp
@@ -264,9 +271,9 @@ theorem to_fieldsF_schemaOK (o : Options) (how : OwOK o) (hn : o.allow_null_fiel
     cases h
     intro g hg
     rcases List.mem_cons.1 hg with rfl | hg
-    · exact to_field_schemaOK o how hn t _ hw.2.2.2.1 hf
-    · exact to_fieldsF_schemaOK o how hn s r fs' hw.2.2.2.2 hfs g hg
-theorem to_fieldsV_schemaOK (o : Options) (how : OwOK o) (hn : o.allow_null_fields = false) :
+    · exact to_field_schemaOK o how t _ hw.2.2.2.1 hf
+    · exact to_fieldsF_schemaOK o how s r fs' hw.2.2.2.2 hfs g hg
+theorem to_fieldsV_schemaOK (o : Options) (how : OwOK o) :
     ∀ (vs : Variants) (idx : Nat) (l : List (Int × Field)), C07.VWF o vs → vs.to_fields o idx = .ok l → OkU idx l
   | .nil, idx, l, _, h => by
     simp only [Variants.to_fields] at h; cases h; exact okU_nil idx
@@ -278,7 +285,7 @@ theorem to_fieldsV_schemaOK (o : Options) (how : OwOK o) (hn : o.allow_null_fiel
     rename_i hidx
     obtain ⟨fs, hfs, h⟩ := bind_ok'.mp h
     cases h
-    exact okU_cons hidx ok_unknown_variant (to_fieldsV_schemaOK o how hn r (idx + 1) fs hw hfs)
+    exact okU_cons hidx ok_unknown_variant (to_fieldsV_schemaOK o how r (idx + 1) fs hw hfs)
   | .present _ t r, idx, l, hw, h => by
     rw [C07.VWF] at hw
     simp only [Variants.to_fields] at h
@@ -288,13 +295,13 @@ theorem to_fieldsV_schemaOK (o : Options) (how : OwOK o) (hn : o.allow_null_fiel
     obtain ⟨f, hf, h⟩ := bind_ok'.mp h
     obtain ⟨fs, hfs, h⟩ := bind_ok'.mp h
     cases h
-    exact okU_cons hidx (to_field_schemaOK o how hn t f hw.1 hf) (to_fieldsV_schemaOK o how hn r (idx + 1) fs hw.2 hfs)
+    exact okU_cons hidx (to_field_schemaOK o how t f hw.1 hf) (to_fieldsV_schemaOK o how r (idx + 1) fs hw.2 hfs)
 end
 
 /-- the packaging for `Tracer.to_schema` -/
-theorem to_schema_schemaOK (o : Options) (how : OwOK o) (hn : o.allow_null_fields = false) (t : Tracer)
+theorem to_schema_schemaOK (o : Options) (how : OwOK o) (t : Tracer)
     (hw : C07.WF o t) (fields : List Field) (h : t.to_schema o = .ok fields) : ∀ f ∈ fields, schemaOK f = true := by
   obtain ⟨n, children, md, hr, rfl⟩ := to_schema_ok o t fields h
-  exact ok_struct_children (to_field_schemaOK o how hn t _ hw hr)
+  exact ok_struct_children (to_field_schemaOK o how t _ hw hr)
 
 end SaModel.Lemmas.C09T
